@@ -24,6 +24,19 @@ class FullTap(ns.Tap):
         return cmd, m
 
 
+class TolerantTap(FullTap):
+    """scripted-peer side: records UNIMPLEMENTED replies but does not hand them to the peer's own run loop
+    (a paramiko peer that is itself in the middle of a key exchange would treat them as out of order)"""
+    swallow_unimplemented = False
+
+    def read_message(self):
+        while True:
+            cmd, m = super().read_message()
+            if cmd == MSG_UNIMPLEMENTED and self.swallow_unimplemented:
+                continue
+            return cmd, m
+
+
 def raw_message(t, payload=b""):
     m = Message()
     m.add_byte(bytes([t]))
@@ -47,7 +60,7 @@ class Probe:
         self.server = server or ns.LogServer()
         if state == "partial":
             self.server.check_auth_password = self._partial
-        self.s = ns.Session(server=self.server, packetizer_class=FullTap)
+        self.s = ns.Session(server=self.server, packetizer_class=TolerantTap)
         ok = self.s.start()
         if ok != (True, True):
             raise RuntimeError("handshake failed: %r %r" % (ok, self.s.errors))
@@ -157,6 +170,72 @@ class Probe:
                    "delivered": (data_after != data_before) if self.state != "authed" else False,
                    "continues": bool(cont) if cont is not None else active, "plen": len(payload)})
         return ev
+
+    def rekey_window(self, types, payload=b""):
+        """the victim starts a re-exchange; while only ITS KEXINIT is out (the peer has not seen it yet: the
+        victim's output is held in the link) the peer sends the given unhandled types. Returns one event per
+        type, in_kex = True."""
+        v, a = self.victim, self.attacker
+        vp, ap = v.packetizer, a.packetizer
+        link = self.s.link
+        side_v = "b" if self.role == "server" else "a"
+        self.sync()
+        ap.swallow_unimplemented = True
+        n_in, n_ain, n_out = len(vp.tap_in), len(ap.tap_in_full), len(vp.tap_out)
+        pre = {"authed": bool(v.is_authenticated()), "authHandler": v.auth_handler is not None}
+        link.hold(side_v)
+        done = {}
+
+        def reneg():
+            try:
+                v.renegotiate_keys()
+                done["ok"] = True
+            except Exception as e:
+                done["exc"] = type(e).__name__
+        th = threading.Thread(target=reneg, daemon=True)
+        th.start()
+        end = time.time() + 4.0
+        while time.time() < end and not any(t == 20 for t, _ in vp.tap_out[n_out:]):
+            time.sleep(0.001)
+        in_kex = bool(v.in_kex)
+        live = [self.live_handled(t) for t in types]
+        for t in types:
+            a._send_message(raw_message(t, payload))
+        mk = Message()
+        mk.add_byte(bytes([MSG_IGNORE]))
+        mk.add_string(MARK)
+        a._send_message(mk)
+        end = time.time() + 4.0
+        while time.time() < end and v.is_active() and len(vp.tap_in) < n_in + len(types) + 1:
+            with vp.tap_cv:
+                vp.tap_cv.wait(0.01)
+        seqs = [sq for (tt, sq) in vp.tap_in[n_in:n_in + len(types)]]
+        link.release(side_v)
+        th.join(6.0)
+        self.sync()
+        replies = [struct.unpack(">I", raw[0:4])[0] for (tt, sq, raw) in ap.tap_in_full[n_ain:]
+                   if tt == MSG_UNIMPLEMENTED and len(raw) >= 4]
+        active = bool(v.is_active())
+        cont = self.echo() if active and self.ch is not None else False
+        ap.swallow_unimplemented = False
+        evs = []
+        # the k-th UNIMPLEMENTED reply is attributed to the k-th probe that the spec expects to be answered
+        ri = 0
+        for i, t in enumerate(types):
+            reply = []
+            if t != MSG_UNIMPLEMENTED and not live[i]:
+                if ri < len(replies):
+                    reply = [MSG_UNIMPLEMENTED, replies[ri]]
+                ri += 1
+            ev = dict(pre)
+            ev.update({"t": t, "seq": seqs[i] if i < len(seqs) else -1, "chan": "na", "live_handled": live[i],
+                       "reply": reply, "active": active, "conn_cb": False, "cbs": [], "nchans": 0, "accepts": 0,
+                       "delivered": False, "continues": bool(cont) and bool(done.get("ok")), "plen": len(payload),
+                       "in_kex": in_kex})
+            evs.append(ev)
+        if ri < len(replies) and evs:
+            evs[-1]["extra_unimplemented"] = len(replies) - ri
+        return evs
 
     def echo(self):
         try:
